@@ -22,7 +22,7 @@ def budget(tier):
 
 @st.composite
 def _case(draw):
-    prof = S.profile(dep_only_file=0.2, services_in_subpackages=True, max_methods=5, max_services=2, p_http=0.85, p_sig=0.1, p_routing=0.5, p_paged=0.08, p_lro=0.06,
+    prof = S.profile(dep_only_file=0.2, services_in_subpackages=True, p_custom_verb=0.12, max_methods=5, max_services=2, p_http=0.85, p_sig=0.1, p_routing=0.5, p_paged=0.08, p_lro=0.06,
                      p_stream=0.1, p_dep_io=0.05, p_comment=0.03, max_messages=4, max_fields=6, p_reserved_field=0.15,
                      p_map=0.1, p_resource=0.1, max_files=2, p_additional=0.3, routing_reserved_ok=True)
     api = draw(S.apis(prof))
